@@ -21,7 +21,8 @@ RULE = (
     "fields equal; equal => equal hash (TypeError accepted for unhashable field values); bool(a) <=> any field truthy; "
     "T(*pos, **kw) == default instance + setattr, unspecified fields = reference zero value; dumps() before and after an "
     "assignment equal the reference encodings of the old and new value tree (so only the assigned field's bytes change). "
-    "Exhaustive stage: field counts 0..12 x 3 name orders. Non-trivial = >= 3 fields with siblings of equal count alive, "
+    "Exhaustive stages: field counts 0..12 x 3 name orders; a scalar char member given each of the 256 values as bytes, "
+    "int and str by assignment and by keyword (only its byte changes in the dump). Non-trivial = >= 3 fields with siblings of equal count alive, "
     "pair differing only in the last field; distinct by (definition, cfg, values, choice)."
 )
 ASSUMPTIONS = [
@@ -71,6 +72,51 @@ def wide_cases():
         defs = [{"k": "structdef", "n": "Root", "t": {"k": "st", "kind": "struct", "name": None, "fields": fields}}]
         for compiled in (False, True):
             yield {"wide": True, "defs": defs, "root": "Root", "n": n, "cfg": {"endian": "<", "align": False, "ptr": "uint32", "compiled": compiled}}
+
+
+def char_cases():
+    """Every value a scalar char member can be given, in each of the spellings the writer accepts (bytes, int, str)."""
+    for code in range(256):
+        for form in ("bytes", "int", "str"):
+            for how in ("assign", "keyword", "assign-on-parsed"):
+                yield {"charform": True, "code": code, "form": form, "how": how, "compiled": code % 2 == 0, "endian": "<>"[(code // 2) % 2]}
+
+
+def _run_charform(case, ctx):
+    m = import_repo()
+    cs = m.cstruct(endian=case["endian"])
+    r = lib(cs.load, "struct Root { uint8 a; char c; uint16 b; char t[2]; };", compiled=case["compiled"])
+    if isinstance(r, Err):
+        raise Violation("definition-rejected", f"{r}", r.where)
+    code, form = case["code"], case["form"]
+    val = bytes([code]) if form == "bytes" else code if form == "int" else chr(code)
+    b16 = (0x1234).to_bytes(2, "little" if case["endian"] == "<" else "big")
+    before = bytes([7, 0x41]) + b16 + b"xy"
+    expect = bytes([7, code]) + b16 + b"xy"
+    if case["how"] == "keyword":
+        obj = lib(lambda: cs.Root(a=7, c=val, b=0x1234, t=b"xy"))
+    else:
+        obj = lib(cs.Root, before) if case["how"] == "assign-on-parsed" else lib(lambda: cs.Root(a=7, c=b"A", b=0x1234, t=b"xy"))
+        if not isinstance(obj, Err):
+            d0 = lib(obj.dumps)
+            if isinstance(d0, Err) or d0 != before:
+                raise Violation("assignment-not-local", f"before the assignment dumps gives {d0!r}, expected {before.hex()}")
+            r = lib(setattr, obj, "c", val)
+            if isinstance(r, Err):
+                raise Violation("assignment-raised", f"c = {val!r}: {r}", r.where)
+    if isinstance(obj, Err):
+        raise Violation("constructor-raised", f"Root(a=7, c={val!r}, ...): {obj}", obj.where)
+    d = lib(obj.dumps)
+    what = {"definition": "struct Root { uint8 a; char c; uint16 b; char t[2]; }", "c": repr(val), "how": case["how"], "compiled": case["compiled"], "endian": case["endian"]}
+    if isinstance(d, Err):
+        raise Violation("assignment-not-local", f"{what}: dumps raised {d}", d.where)
+    if d != expect:
+        changed = [i for i in range(max(len(d), len(before))) if d[i : i + 1] != before[i : i + 1]]
+        raise Violation("assignment-not-local", f"{what}: dumps {d.hex()} ({len(d)} bytes), expected {expect.hex()}: bytes {changed} differ from the dump before, only byte 1 is the member's")
+    ctx.count(f"char-member:{form}:{'high' if code >= 0x80 else 'ascii'}")
+    ctx.mark_nontrivial(case)
+    if code in (0, 0x41, 0x80, 0xE9, 0xFF):
+        ctx.sample(what, "char-member")
 
 
 def _run_wide(case, ctx):
@@ -192,6 +238,8 @@ def _twin(sem, t, v):
 def run_case(case, ctx):
     if case.get("wide"):
         return _run_wide(case, ctx)
+    if case.get("charform"):
+        return _run_charform(case, ctx)
     m = import_repo()
     ref = common.reference(case)
     if ref["status"] != "ok":
@@ -478,5 +526,6 @@ def stages(tier):
     return [
         HypStage("values", value_case, examples=500 if q else 5000, shards=8 if q else 16),
         EnumStage("wide", wide_cases, shards=4, scope="field counts 13, 30..33, 64, 129, 255..257, 300 x {compiled, interpreted}: equality, hash, per-index inequality / truth / assignment locality"),
+        EnumStage("char-member", char_cases, shards=2, scope="a scalar char member given each of the 256 values as bytes, int and str, by assignment (on a built and on a parsed instance) and by keyword: only its byte changes in the dump"),
         EnumStage("counts", count_cases, shards=2, scope="field counts 0..12 x 3 name orders, with same-count siblings alive"),
     ]
